@@ -6,9 +6,8 @@ An analysis object may own another `Cached` object and list it in its `__cache_s
 `owned_pairs_ok`, `ocoherent_all`) composes the owner's table with the owned class's OWN table;
 this module ties the composed table to the real objects and searches the real objects:
 
-  * static: the hand-written description of the owned objects in translate/fields_C01.json (which
-    counters are their state, which mutators they have) against what the translator derives from
-    the owned class's source (`json_state == derived_state`, no dangling mutator);
+  * static (informational since the translator derives it): what translate/fields_C01.json may
+    still say about an owned object vs what the translator derives from the owned class's source;
   * correspondence: for EVERY public mutator Z of the owned class (from the owned class's table,
     invoker derived as in c01_generic), cached queries Y of the owned object and X of the owner:
     `Y; X; o.comp.Z(...); Y; X; X` on one owner object — hit / miss of the three calls after the
